@@ -1364,6 +1364,8 @@ class Parallel(Logger):
         self._backend = backend
         self._running = False
         self._calling = False
+        self._pre_dispatching = False
+        self._deferred_dispatches = 0
         self._detached_exit_thread = None
         self._managed_backend = False
         self._id = uuid4().hex
@@ -1467,6 +1469,12 @@ class Parallel(Logger):
         callback. We rely on the thread-safety of dispatch_one_batch to protect
         against concurrent consumption of the unprotected iterator.
         """
+        with self._lock:
+            if self._pre_dispatching:
+                # The caller's thread is still dispatching the first
+                # pre_dispatch tasks: it dispatches this batch afterwards.
+                self._deferred_dispatches += 1
+                return
         if not self.dispatch_one_batch(self._original_iterator):
             self._iterating = False
             self._original_iterator = None
@@ -1679,16 +1687,31 @@ class Parallel(Logger):
         # was very quick and its callback already dispatched all the
         # remaining jobs.
         self._iterating = False
-        # Hold the lock during the whole initial dispatch: a completion
-        # callback running concurrently would otherwise slice the next batches
-        # into the look-ahead queue, from which this loop would dispatch them
-        # on top of the pre-dispatched ones.
+        # A completion callback running during the initial dispatch would
+        # slice the next batches into the look-ahead queue, from which this
+        # loop would dispatch them on top of the pre-dispatched ones. The
+        # callbacks therefore only record that a new batch is due (see
+        # dispatch_next); those batches are dispatched once the loop is over.
+        # The lock is not held during the loop: the callbacks must be able
+        # to register their results (and errors) meanwhile.
         with self._lock:
+            self._pre_dispatching = True
+            self._deferred_dispatches = 0
+        try:
             if self.dispatch_one_batch(iterator):
                 self._iterating = self._original_iterator is not None
 
             while self.dispatch_one_batch(iterator):
                 pass
+        finally:
+            with self._lock:
+                self._pre_dispatching = False
+                deferred_dispatches = self._deferred_dispatches
+        for _ in range(deferred_dispatches):
+            with self._lock:
+                if self._original_iterator is None or self._aborting:
+                    break
+                self.dispatch_next()
 
         if pre_dispatch == "all":
             # The iterable was consumed all at once by the above for loop.
